@@ -109,6 +109,26 @@ def str_rt(fmt, name, ctg, hdr, tag=None, lean=False):
     return FIN(asm_eq(asm, back, tags=False))
 
 
+def repeated_header_lines(s0: int, n0: int) -> bool:
+    """
+    pre: s0 >= 1 and n0 >= 1
+    post: _
+    """
+    # the same header line text twice (e.g. a separator line used twice) must survive both formats
+    START()
+    hdr = ("----------", "DESCRIPTION: x", "----------", "DESCRIPTION: x", "last")
+    ok = True
+    for pm in (False, True):
+        asm = build([("scf", "FGF")], [(s0, n0), (7,), (s0, n0)], [1, -1], header=hdr, tags=not pm)
+        if pm:
+            back = p_tpf(fmt_tpf(asm))
+            ok = AND(ok, asm_eq(asm, back, tags=False), text_eq(fmt_tpf(back), own_tpf(asm)))
+        else:
+            back = p_agp(fmt_agp(asm))
+            ok = AND(ok, asm_eq(asm, back), text_eq(fmt_agp(back), own_agp(asm)))
+    return FIN(ok)
+
+
 def count_rows(asm):
     return sum(len(s.rows) for s in asm.scaffolds)
 
@@ -270,6 +290,7 @@ ENC = ("parser.parse_agp", "parser.parse_tpf", "format.format_agp", "format.form
 
 AGP_SPECS = {
     "one_fragment": [("scf_1", "F")],
+    "adjacent_gaps": [("scf_1", "FGGF")],
     "fgf": [("scf_1", "FGF")],
     "leading_gap": [("scf_1", "GF")],
     "two_scaffolds": [("scf_1", "FG"), ("scf_2", "FF")],
@@ -277,6 +298,7 @@ AGP_SPECS = {
 }
 TPF_SPECS = {
     "one_fragment": [("scf_1", "F")],
+    "adjacent_gaps_and_trailing_gap": [("scf_1", "FGGFG")],
     "fgf": [("scf_1", "FGF")],
     "two_scaffolds": [("scf_1", "FG"), ("scf_2", "FF")],
     "same_name_nonadjacent": [("scf_1", "F"), ("scf_2", "F"), ("scf_1", "FGF")],
@@ -325,6 +347,7 @@ def {fn}(x: str) -> bool:
     return {call}
 ''')
         metas.append((nm, fn, 900, bound))
+    metas.append(("repeated_header_lines", "repeated_header_lines", 300, "header with the same line text twice (separator and description repeated), AGP and TPF, coordinates unbounded"))
     for nm, to, bound in (("agp_line_corruption", 900, "a column (symbolic index 0..9) deleted from a symbolic line of a canonical 3-line AGP: parsed rows == data lines, or an exception"),
                           ("tpf_line_corruption", 900, "the same for TPF (columns 0..4)"),
                           ("agp_bad_strand", 600, "AGP orientation column = symbolic string of <= 2 code points: error, or exactly the legal symbol kept"),
